@@ -90,6 +90,15 @@ AsgCases ==
   \cup {Case("asg-rhs-writes" \o op, <<Set("c", MutE(WInt, I(12)))>>,
              Asg(op, Tick(1, WMut(WInt), V("c")), Bin("+", Asg("=", V("c"), T(2, 3)), T(3, 1))), WInt, <<1, 2, 3>>) : op \in {"+=", "*=", "-="}}
 
+BoolAsgCases ==
+  \* a bool cell that already holds the deciding value excuses nothing: &= |= ^= evaluate their value operand, once
+  {Case("asg-bool" \o op \o ToString(c) \o ToString(v), <<Set("c", MutE(WBool, B(c)))>>, Asg(op, Tick(1, WMut(WBool), V("c")), TB(2, v)), WBool, <<1, 2>>)
+     : op \in {"&=", "|=", "^=", "="}, c \in BOOLEAN, v \in BOOLEAN}
+  \cup {Case("asg-bool-twice" \o op \o ToString(c), <<Set("c", MutE(WBool, B(c))), Asg(op, V("c"), TB(1, c))>>, Asg(op, V("c"), TB(2, ~c)), WBool, <<1, 2>>)
+     : op \in {"&=", "|="}, c \in BOOLEAN}
+  \cup {Case("asg-int-absorbed" \o op, <<Set("c", MutE(WInt, I(IF op = "&=" THEN 0 ELSE -1)))>>, Asg(op, Tick(1, WMut(WInt), V("c")), T(2, 6)), WInt, <<1, 2>>)
+     : op \in {"&=", "|="}}
+
 \* control constructs are statements: the value goes through `r := <stm>`
 \* boundary values of an EARLIER operand never excuse a later one (empty sequences, 0, 1, absorbing elements)
 EmptyA == ArrE(<<>>)
@@ -167,6 +176,24 @@ CtlCases ==
   \cup {CtlCase("ifset-" \o ToString(n), <<>>,
                IfSet("x", WInt, Tick(1, WMulti(<<WInt, WFloat>>), IF n THEN I(1) ELSE F(3)), T(2, 10), T(3, 20)), WInt,
                IF n THEN <<1, 2>> ELSE <<1, 3>>) : n \in BOOLEAN}
+  \* a type test that cannot succeed (the static type of the tested expression has nothing in common with the pattern)
+  \* still evaluates the tested expression, once, and then takes the other branch
+  \cup {CtlCase("ifset-never", <<>>, IfSet("x", WInt, Tick(1, WStr, S(<<97>>)), T(2, 10), T(3, 20)), WInt, <<1, 3>>),
+        CtlCase("ifset-never-noelse", <<Set("c", MutE(WInt, I(0)))>>,
+                Block(<<IfSet("x", WStr, Asg("=", V("c"), T(1, 5)), Block(<<Mark(9)>>), NoneV), IfSet("y", WStr, Asg("+=", V("c"), T(2, 1)), Block(<<Mark(9)>>), NoneV), Deref(V("c"))>>),
+                WInt, <<1, 2>>) ,
+        CtlCase("ifset-never-call", <<FnDecl("nm", <<>>, WStr, <<Mark(1), Ret(S(<<97>>))>>)>>, IfSet("x", WInt, CallE(V("nm"), <<>>), T(2, 10), T(3, 20)), WInt, <<1, 3>>),
+        CtlCase("whileset-never", <<>>, Block(<<WhileSet("x", WInt, Tick(1, WStr, S(<<97>>)), Block(<<Mark(9)>>)), T(2, 7)>>), WInt, <<1, 2>>),
+        CtlCase("match-ty-never", <<>>, Match(Tick(1, WStr, S(<<97>>)), <<ArmTy("y", WInt, T(2, 100)), ArmTy("y", WArr(WInt), T(3, 100)), ArmOther(T(4, 300))>>), WInt, <<1, 4>>),
+        CtlCase("match-val-never", <<>>, Match(Tick(1, WStr, S(<<97>>)), <<ArmVal(<<T(2, 5)>>, T(3, 100)), ArmOther(T(4, 300))>>), WInt, <<1, 2, 4>>)}
+  \* ... also when the static type is only known to exclude the pattern after a closure captured the value
+  \cup {CtlCase("ifset-never-captured-" \o ToString(n),
+                <<Set("last", MutE(WMulti(<<WInt, WStr>>), I(0))),
+                  FnDecl("mk", <<P("v", WMulti(<<WInt, WStr>>))>>, WFn(<<>>, WInt),
+                         <<Ret(FnE(<<>>, WInt, <<IfSet("x", WInt, Asg("=", V("last"), V("v")), Block(<<Mark(2), Ret(V("x"))>>), NoneV), Mark(3), Ret(I(-1))>>))>>)>>,
+                Block(<<Set("r", CallE(CallE(V("mk"), <<Tick(1, WMulti(<<WInt, WStr>>), IF n THEN I(4) ELSE S(<<115>>))>>), <<>>)),
+                        IfSet("q", WStr, Deref(V("last")), Bin("-", V("r"), I(100)), V("r"))>>),
+                WInt, IF n THEN <<1, 2>> ELSE <<1, 3>>) : n \in BOOLEAN}
   \cup {CtlCase("match-" \o ToString(s), <<>>,
                Match(T(1, s), <<ArmVal(<<T(2, 5), T(3, 6)>>, T(4, 100)), ArmVal(<<T(5, 7)>>, T(6, 200)), ArmOther(T(7, 300))>>), WInt,
                CASE s = 5 -> <<1, 2, 4>> [] s = 6 -> <<1, 2, 3, 4>> [] s = 7 -> <<1, 2, 3, 5, 6>> [] OTHER -> <<1, 2, 3, 5, 7>>)
@@ -186,7 +213,7 @@ CtlProg(c, ctx) ==
 Contexts == {"top", "fn"}
 AllCases ==
   {[id |-> c.name \o "/" \o ctx, suite |-> "c07", prog |-> ExprProg(c, ctx), must |-> c.must]
-      : c \in BinCases \cup LogicCases \cup DataCases \cup AsgCases \cup ZeroCases \cup LitIterCases \cup RepCases, ctx \in Contexts}
+      : c \in BinCases \cup LogicCases \cup DataCases \cup AsgCases \cup ZeroCases \cup LitIterCases \cup RepCases \cup BoolAsgCases, ctx \in Contexts}
   \cup {[id |-> c.name \o "/" \o ctx, suite |-> "c07", prog |-> CtlProg(c, ctx), must |-> c.must]
       : c \in CtlCases, ctx \in Contexts}
 
